@@ -23,6 +23,7 @@ EXPLANATION = (
     'CircularBuffer::Consume in the export cycle is bounded by the member initialised from '
     'max_export_batch_size (recognised bounded forms enumerated in DESIGN §4 C03.R3). C03.R4 (dominance): the '
     'Export call is dominated by the non-zero outcome of a test of that count.')
+EXPLANATION += ' While the pending-flush branch is unbounded (recorded finding D1), no member other than the flush entry may write the pending ticket (who-may-write): another writer arms the unbounded branch without any ForceFlush.'
 NOT_DECIDED = ('nothing of the statement is left undecided structurally, except that R2 trusts the join/worker '
                'discipline (C02.R6) for "no two worker threads at once"; the known finding D1 is an exception to R3.')
 
